@@ -443,11 +443,23 @@ func (s *controlledSelector) HandleSuccessResponse(
 	pair.state = CandidatePairStateSucceeded
 	s.log.Tracef("Found valid candidate pair: %s", pair)
 	if pair.nominateOnBindingSuccess {
-		if selectedPair := s.agent.getSelectedPair(); selectedPair == nil ||
+		selectedPair := s.agent.getSelectedPair()
+		switch {
+		case pair.pendingNominationValue != nil:
+			// A renomination that arrived before this pair was valid: last nomination wins
+			// regardless of priority, unless a newer value was accepted meanwhile.
+			if s.lastNomination != nil && *pair.pendingNominationValue == *s.lastNomination {
+				if selectedPair != pair {
+					s.agent.setSelectedPair(pair)
+				}
+			} else {
+				s.log.Tracef("Ignore superseded renomination %d of pair %s", *pair.pendingNominationValue, pair)
+			}
+		case selectedPair == nil ||
 			(selectedPair != pair &&
-				(!s.agent.needsToCheckPriorityOnNominated() || selectedPair.priority() <= pair.priority())) {
+				(!s.agent.needsToCheckPriorityOnNominated() || selectedPair.priority() <= pair.priority())):
 			s.agent.setSelectedPair(pair)
-		} else if selectedPair != pair {
+		case selectedPair != pair:
 			s.log.Tracef("Ignore nominate new pair %s, already nominated pair %s", pair, selectedPair)
 		}
 	}
@@ -510,6 +522,7 @@ func (s *controlledSelector) HandleBindingRequest(message *stun.Message, local, 
 			// candidate pair state to Failed, and set the checklist state to
 			// Failed.
 			pair.nominateOnBindingSuccess = true
+			pair.pendingNominationValue = nominationValue
 		}
 	}
 
